@@ -1,0 +1,25 @@
+//go:build verif
+
+package silence
+
+import "sync/atomic"
+
+// verifYieldFn is the callback installed by the verification harness. It is
+// called at every yield point with the point's name and its arguments, on the
+// calling goroutine, with none of the package's locks held.
+var verifYieldFn atomic.Pointer[func(point string, a ...any)]
+
+// SetVerifYield installs (or, with nil, removes) the yield-point callback.
+func SetVerifYield(f func(point string, a ...any)) {
+	if f == nil {
+		verifYieldFn.Store(nil)
+		return
+	}
+	verifYieldFn.Store(&f)
+}
+
+func verifYield(point string, a ...any) {
+	if f := verifYieldFn.Load(); f != nil {
+		(*f)(point, a...)
+	}
+}
